@@ -58,6 +58,11 @@ PROPS = {
                    "parameter bookkeeping (one index set for removal and re-insertion, inversion on the free sub-block, symmetrisation, scipy re-packing), "
                    "correlation and symmetric errors, profile / contour targets (+1, sigma^2), profile function cost - target with pinning and re-minimisation, "
                    "error band sqrt(p^T C p) with one mask; argument-slot rule over the minimizer, fitter, profiler and xy fit classes."),
+    "C09": ("c09", "Agreement of the tables behind save/load, read off the representer sources: object type names of all to_file/from_file classes vs the "
+                   "registered reader/writer pairs (classmethod-ness included); mutual inverse of the per-family type tables; keys written by each writer vs "
+                   "keys consumed by its reader (incl. the shared error-source helpers) and required keys vs written keys; copy-paste detector; flag-dependent "
+                   "accessors; per-source state coverage; truncate-before-write dominance; sibling shorthand expanders; reader-side installs followed by the "
+                   "fit's own invalidation."),
 }
 
 
